@@ -6,6 +6,9 @@
 //	WriteSet.lean — which methods of *list / *object syntactically write the receiver's fields,
 //	                and that no operation the specification calls non-mutating is among them
 //	Api.lean      — the method names of the List and Object interfaces
+//	ParserGen.lean — a translation of the parser core (parseList, parseObject, parseField, ParseList,
+//	                ParseObject, the escape table of quoteJSON) into Lean definitions;
+//	                Lemmas/ParserGenEq proves them equal to the hand-written model
 //
 // Usage: vextract <repo dir> <out dir>
 //
@@ -22,6 +25,7 @@ import (
 	"os"
 	"path/filepath"
 	"sort"
+	"strconv"
 	"strings"
 )
 
@@ -48,11 +52,22 @@ func main() {
 		"WriteSet.lean": genWriteSet(pkg),
 		"Api.lean":      genApi(pkg),
 	}
+	// the parser translation fails loudly: the other outputs are still written, ParserGen.lean is
+	// replaced by a file that does not compile, and the exit status is non-zero
+	parserGen, perr := genParser(pkg)
+	if perr != nil {
+		parserGen = "#check (vextract_translation_failed : " + leanString(perr.Error()) + ")\n"
+	}
+	outputs["ParserGen.lean"] = parserGen
 	for name, text := range outputs {
 		if err := os.WriteFile(filepath.Join(out, name), []byte(text), 0o644); err != nil {
 			fmt.Fprintln(os.Stderr, "vextract:", err)
 			os.Exit(1)
 		}
+	}
+	if perr != nil {
+		fmt.Fprintln(os.Stderr, "vextract: parser translation failed:", perr)
+		os.Exit(1)
 	}
 }
 
@@ -91,14 +106,19 @@ type method struct {
 type pkgInfo struct {
 	methods    map[string]map[string]*method // receiver type -> method name -> decl
 	interfaces map[string]*ast.InterfaceType // "List", "Object"
+	funcs      map[string]*ast.FuncDecl      // top-level functions
 }
 
 func collect(files []*ast.File) *pkgInfo {
-	p := &pkgInfo{methods: map[string]map[string]*method{}, interfaces: map[string]*ast.InterfaceType{}}
+	p := &pkgInfo{methods: map[string]map[string]*method{}, interfaces: map[string]*ast.InterfaceType{},
+		funcs: map[string]*ast.FuncDecl{}}
 	for _, f := range files {
 		for _, d := range f.Decls {
 			switch d := d.(type) {
 			case *ast.FuncDecl:
+				if d.Recv == nil && d.Body != nil {
+					p.funcs[d.Name.Name] = d
+				}
 				if d.Recv == nil || len(d.Recv.List) != 1 || d.Body == nil {
 					continue
 				}
@@ -825,5 +845,1528 @@ func genApi(p *pkgInfo) string {
 	b.WriteString("/-- every method of the `Object` interface is classified -/\n")
 	b.WriteString("theorem object_api_classified :\n    ∀ m ∈ objectMethods, (\"object\", m) ∈ readOnlyApi ∨ (\"object\", m) ∈ mutators := by decide +kernel\n\n")
 	b.WriteString("end Anytype.Generated\n")
+	return b.String()
+}
+
+// ---------------------------------------------------------------------------------------------
+// ParserGen.lean: translation of the parser core into Lean
+//
+// The two state machines parseList / parseObject are translated by a small symbolic executor over
+// the statements of the loop body.  It carries the current Lean expression of every mutable
+// variable and turns the statement list into a decision tree; whatever it does not recognise makes
+// it fail with the source position.  The conventions are those of Model/Parser.lean: the input is
+// the list of decoded items, a nested call returns the remaining items, the case `stateStart`
+// (which only consumes the opening bracket) is executed once, symbolically, to obtain the initial
+// arguments of a (nested) call, and the loop is a recursion on fuel.
+
+type transErr struct {
+	pos token.Position
+	msg string
+}
+
+func (e *transErr) Error() string {
+	if e.pos.Filename == "" {
+		return e.msg
+	}
+	return fmt.Sprintf("%s:%d:%d: %s", filepath.Base(e.pos.Filename), e.pos.Line, e.pos.Column, e.msg)
+}
+
+func failAt(n ast.Node, format string, args ...any) {
+	e := &transErr{msg: fmt.Sprintf(format, args...)}
+	if n != nil {
+		e.pos = fset.Position(n.Pos())
+	}
+	panic(e)
+}
+
+func where(n ast.Node) string {
+	p := fset.Position(n.Pos())
+	return fmt.Sprintf("%s:%d", filepath.Base(p.Filename), p.Line)
+}
+
+// --- a tiny Lean term tree with a pretty-printer
+
+type lnode interface{}
+type lLeaf struct{ s string }
+type lIf struct {
+	cond string
+	a, b lnode
+}
+type lArm struct {
+	pat  string
+	body lnode
+}
+type lMatch struct {
+	scrut string
+	arms  []lArm
+}
+type lLet struct {
+	name, val string
+	body      lnode
+}
+
+// emit writes n; the cursor is at column len(ind) already, continuation lines are indented by ind
+func emit(b *strings.Builder, n lnode, ind string) {
+	sub := func(x lnode) {
+		if l, ok := x.(lLeaf); ok {
+			b.WriteString(" " + l.s)
+			return
+		}
+		b.WriteString("\n" + ind + "  ")
+		emit(b, x, ind+"  ")
+	}
+	switch n := n.(type) {
+	case lLeaf:
+		b.WriteString(n.s)
+	case lLet:
+		b.WriteString("let " + n.name + " := " + n.val + "\n" + ind)
+		emit(b, n.body, ind)
+	case lIf:
+		b.WriteString("if " + n.cond + " then")
+		sub(n.a)
+		b.WriteString("\n" + ind + "else")
+		if e, ok := n.b.(lIf); ok {
+			b.WriteString(" ")
+			emit(b, e, ind)
+		} else {
+			sub(n.b)
+		}
+	case lMatch:
+		b.WriteString("match " + n.scrut + " with")
+		for _, a := range n.arms {
+			b.WriteString("\n" + ind + "| " + a.pat + " =>")
+			sub(a.body)
+		}
+	default:
+		panic(&transErr{msg: "internal: unknown Lean node"})
+	}
+}
+
+// parenthesise a Lean expression used as an argument
+func paren(s string) string {
+	if !strings.Contains(s, " ") {
+		return s
+	}
+	n := len(s)
+	if s[0] == '[' && s[n-1] == ']' && !strings.ContainsAny(s[1:n-1], "[]") {
+		return s
+	}
+	if s[0] == '(' && s[n-1] == ')' && !strings.ContainsAny(s[1:n-1], "()") {
+		return s
+	}
+	return "(" + s + ")"
+}
+
+func leanChar(r rune) string {
+	switch r {
+	case '\n':
+		return `'\n'`
+	case '\t':
+		return `'\t'`
+	case '\r':
+		return `'\r'`
+	case '\\':
+		return `'\\'`
+	case '\'':
+		return `'\''`
+	}
+	if r >= 0x20 && r < 0x7f {
+		return "'" + string(r) + "'"
+	}
+	if r < 0x100 {
+		return fmt.Sprintf(`'\x%02x'`, r)
+	}
+	return fmt.Sprintf("(Char.ofNat 0x%X)", r)
+}
+
+func leanCharList(s string) string {
+	var q []string
+	for _, r := range s {
+		q = append(q, leanChar(r))
+	}
+	return "[" + strings.Join(q, ", ") + "]"
+}
+
+func charLit(e ast.Expr) (rune, bool) {
+	l, ok := unparen(e).(*ast.BasicLit)
+	if !ok || l.Kind != token.CHAR || len(l.Value) < 3 {
+		return 0, false
+	}
+	r, _, tail, err := strconv.UnquoteChar(l.Value[1:len(l.Value)-1], '\'')
+	if err != nil || tail != "" {
+		return 0, false
+	}
+	return r, true
+}
+
+func stringLit(e ast.Expr) (string, bool) {
+	l, ok := unparen(e).(*ast.BasicLit)
+	if !ok || l.Kind != token.STRING {
+		return "", false
+	}
+	s, err := strconv.Unquote(l.Value)
+	if err != nil {
+		return "", false
+	}
+	return s, true
+}
+
+// --- error messages
+
+type errKind struct {
+	kind    string
+	hasLine bool
+}
+
+// the format strings of the parser's errors (the same table as the comments of `PErrKind`)
+var errFormats = map[string]errKind{
+	"not an UTF-8 encoding":                                        {"notUtf8", false},
+	"not a valid JSON - unexpected end of input":                   {"unexpectedEnd", false},
+	"not a valid JSON - invalid value '%s' on line %d":             {"invalidValue", true},
+	"not a valid JSON - expecting '\"', got '%s' on line %d":       {"expectQuote", true},
+	"not a valid JSON - expecting ':', got '%s' on line %d":        {"expectColon", true},
+	"not a valid JSON - expecting ',' or '}', got '%s' on line %d": {"expectCommaBrace", true},
+	"not a valid JSON - missing '['":                               {"missingBracket", false},
+	"not a valid JSON - missing '{'":                               {"missingBracket", false},
+}
+
+// fmt.Errorf(format, what, line): the Lean `PErr`; whatSrc / lineSrc are the expected sources of the
+// two arguments of a message that cites a line, lineLean the Lean expression of the line
+func errorfToLean(e ast.Expr, whatSrc, lineSrc, lineLean string) string {
+	call, ok := unparen(e).(*ast.CallExpr)
+	if !ok {
+		failAt(e, "expected fmt.Errorf(...), got %s", src(e))
+	}
+	if x, sel, ok := selOf(call.Fun); !ok || x != "fmt" || sel != "Errorf" || len(call.Args) == 0 {
+		failAt(e, "expected fmt.Errorf(...), got %s", src(e))
+	}
+	format, ok := stringLit(call.Args[0])
+	if !ok {
+		failAt(e, "error format is not a string literal: %s", src(e))
+	}
+	k, ok := errFormats[format]
+	if !ok {
+		failAt(e, "unknown error message %q", format)
+	}
+	if !k.hasLine {
+		if len(call.Args) != 1 {
+			failAt(e, "unexpected arguments of %s", src(e))
+		}
+		return "⟨." + k.kind + ", none⟩"
+	}
+	if len(call.Args) != 3 || src(call.Args[1]) != whatSrc || src(call.Args[2]) != lineSrc {
+		failAt(e, "expected the arguments (%s, %s) in %s", whatSrc, lineSrc, src(e))
+	}
+	return "⟨." + k.kind + ", some " + paren(lineLean) + "⟩"
+}
+
+// --- the machines
+
+var stateCtor = map[string]string{
+	"stateVal": "val", "stateValString": "str", "stateValEscape": "esc", "stateValAfterString": "afterStr",
+	"stateKeyStart": "keyStart", "stateKey": "key", "stateKeyEscape": "keyEsc", "stateAfterKey": "afterKey",
+	"stateAfterVal": "afterVal",
+}
+
+var stateTypes = map[string][]string{
+	"list":   {"val", "str", "esc", "afterStr"},
+	"object": {"keyStart", "key", "keyEsc", "afterKey", "val", "afterVal", "str", "esc", "afterStr"},
+}
+
+type machine struct {
+	kind    string // "list" / "object"
+	decl    *ast.FuncDecl
+	genName string
+	all     map[string]*machine // by Go function name
+
+	jsonVar, lineVar                                                     string
+	stateVar, accVar, valVar, keyVar, inValVar, charVar, sizeVar, idxVar string
+
+	body      []ast.Stmt // loop body after the decoding prologue
+	startCase *ast.CaseClause
+	endErr    string // `PErr` of the return behind the loop
+	utfErr    string // `PErr` of the decoding error
+	goLines   int
+}
+
+type builder struct {
+	base string   // Lean expression (a `Str`)
+	app  []string // characters written since
+}
+
+func (b builder) lean() string {
+	if len(b.app) == 0 {
+		return b.base
+	}
+	lit := "[" + strings.Join(b.app, ", ") + "]"
+	if b.base == "[]" {
+		return lit
+	}
+	return paren(b.base) + " ++ " + lit
+}
+
+type local struct {
+	typ  string // jval, str, err (non-nil), nilerr, undef, int, float, bool
+	lean string
+}
+
+type penv struct {
+	state     string // "st" or a constructor ".val"; "" = stateStart
+	acc       string // "" = not created yet
+	key, val  builder
+	inVal     string
+	line      string
+	rest      string
+	knownChar rune // the current character, when a condition has established it
+	locals    map[string]local
+	// the result position of a nested call that `i += pos` has not consumed yet
+	pendingPos, pendingRest string
+	nestDepth               int
+	lineLets                int
+}
+
+func (e *penv) clone() *penv {
+	c := *e
+	c.locals = make(map[string]local, len(e.locals))
+	for k, v := range e.locals {
+		c.locals[k] = v
+	}
+	c.key.app = append([]string(nil), e.key.app...)
+	c.val.app = append([]string(nil), e.val.app...)
+	return &c
+}
+
+var reservedLean = map[string]bool{"fuel": true, "c": true, "rest": true, "st": true, "acc": true, "key": true,
+	"val": true, "inVal": true, "line": true, "line0": true, "e": true, "at": true, "fun": true, "end": true,
+	"from": true, "do": true, "then": true, "with": true, "open": true, "in": true, "show": true, "have": true,
+	"match": true, "if": true, "else": true, "let": true, "by": true, "def": true, "theorem": true, "where": true,
+	"instance": true, "structure": true, "class": true, "namespace": true, "section": true, "mutual": true}
+
+func leanName(goName string) string {
+	if reservedLean[goName] || strings.HasPrefix(goName, "rest'") || strings.HasPrefix(goName, "line'") {
+		return goName + "_"
+	}
+	return goName
+}
+
+type kont func(*penv) lnode
+
+func newMachine(fd *ast.FuncDecl, kind, genName string, all map[string]*machine) *machine {
+	m := &machine{kind: kind, decl: fd, genName: genName, all: all}
+	ft := fd.Type
+	if len(ft.Params.List) != 2 || len(ft.Params.List[0].Names) != 1 || len(ft.Params.List[1].Names) != 1 ||
+		src(ft.Params.List[0].Type) != "string" || src(ft.Params.List[1].Type) != "*int" {
+		failAt(fd, "%s: expected the parameters (json string, line *int)", fd.Name.Name)
+	}
+	accType := map[string]string{"list": "List", "object": "Object"}[kind]
+	if ft.Results == nil || len(ft.Results.List) != 3 || src(ft.Results.List[0].Type) != accType ||
+		src(ft.Results.List[1].Type) != "int" || src(ft.Results.List[2].Type) != "error" {
+		failAt(fd, "%s: expected the results (%s, int, error)", fd.Name.Name, accType)
+	}
+	m.jsonVar, m.lineVar = ft.Params.List[0].Names[0].Name, ft.Params.List[1].Names[0].Name
+	var builders []string
+	var loop *ast.ForStmt
+	stmts := fd.Body.List
+	i := 0
+	for ; i < len(stmts) && loop == nil; i++ {
+		switch st := stmts[i].(type) {
+		case *ast.AssignStmt:
+			if st.Tok == token.DEFINE && len(st.Lhs) == 1 && len(st.Rhs) == 1 && isIdent(st.Rhs[0], "stateStart") && m.stateVar == "" {
+				m.stateVar = st.Lhs[0].(*ast.Ident).Name
+				continue
+			}
+			failAt(st, "unrecognised statement before the loop: %s", src(st))
+		case *ast.DeclStmt:
+			gd, ok := st.Decl.(*ast.GenDecl)
+			if !ok || gd.Tok != token.VAR || len(gd.Specs) != 1 {
+				failAt(st, "unrecognised declaration: %s", src(st))
+			}
+			vs := gd.Specs[0].(*ast.ValueSpec)
+			if len(vs.Names) != 1 || len(vs.Values) != 0 || vs.Type == nil {
+				failAt(st, "unrecognised declaration: %s", src(st))
+			}
+			name := vs.Names[0].Name
+			set := func(dst *string) {
+				if *dst != "" {
+					failAt(st, "second variable of type %s: %s", src(vs.Type), name)
+				}
+				*dst = name
+			}
+			switch src(vs.Type) {
+			case accType:
+				set(&m.accVar)
+			case "strings.Builder":
+				builders = append(builders, name)
+			case "bool":
+				set(&m.inValVar)
+			case "rune":
+				set(&m.charVar)
+			case "int":
+				set(&m.sizeVar)
+			default:
+				failAt(st, "unrecognised declaration: %s", src(st))
+			}
+		case *ast.ForStmt:
+			loop = st
+		default:
+			failAt(st, "unrecognised statement before the loop: %s", src(st))
+		}
+	}
+	if loop == nil || m.stateVar == "" || m.accVar == "" || m.inValVar == "" || m.charVar == "" || m.sizeVar == "" {
+		failAt(fd, "%s: missing loop or one of the variables state / container / inVal / char / size", fd.Name.Name)
+	}
+	// what follows the loop: the "unexpected end" error
+	if i != len(stmts)-1 {
+		failAt(fd, "%s: expected exactly one statement behind the loop", fd.Name.Name)
+	}
+	ret, ok := stmts[i].(*ast.ReturnStmt)
+	if !ok || len(ret.Results) != 3 || src(ret.Results[0]) != "nil" || src(ret.Results[1]) != "0" {
+		failAt(stmts[i], "expected `return nil, 0, fmt.Errorf(...)` behind the loop")
+	}
+	m.endErr = errorfToLean(ret.Results[2], "", "", "")
+	// builders: the key builder is the one whose String() is the first argument of every <acc>.Set
+	switch {
+	case kind == "list" && len(builders) == 1:
+		m.valVar = builders[0]
+	case kind == "object" && len(builders) == 2:
+		ast.Inspect(fd.Body, func(n ast.Node) bool {
+			if x, mm, args, ok := methodCallNode(n); ok && x == m.accVar && mm == "Set" && len(args) == 2 {
+				if bx, bm, bargs, ok := methodCall(args[0]); ok && bm == "String" && len(bargs) == 0 {
+					if m.keyVar != "" && m.keyVar != bx {
+						failAt(n, "two different key builders: %s and %s", m.keyVar, bx)
+					}
+					m.keyVar = bx
+				}
+			}
+			return true
+		})
+		switch m.keyVar {
+		case builders[0]:
+			m.valVar = builders[1]
+		case builders[1]:
+			m.valVar = builders[0]
+		default:
+			failAt(fd, "%s: cannot tell the key builder from the value builder", fd.Name.Name)
+		}
+	default:
+		failAt(fd, "%s: unexpected number of strings.Builder variables (%d)", fd.Name.Name, len(builders))
+	}
+	// the loop header
+	if loop.Init == nil || loop.Cond == nil || loop.Post == nil {
+		failAt(loop, "unrecognised loop header")
+	}
+	if as, ok := loop.Init.(*ast.AssignStmt); ok && as.Tok == token.DEFINE && len(as.Lhs) == 1 && src(as.Rhs[0]) == "0" {
+		m.idxVar = as.Lhs[0].(*ast.Ident).Name
+	} else {
+		failAt(loop, "unrecognised loop header")
+	}
+	if src(loop.Cond) != m.idxVar+" < len("+m.jsonVar+")" || src(loop.Post) != m.idxVar+" += "+m.sizeVar {
+		failAt(loop, "unrecognised loop header: %s; %s", src(loop.Cond), src(loop.Post))
+	}
+	// the decoding prologue
+	lb := loop.Body.List
+	if len(lb) < 2 ||
+		src(lb[0]) != m.charVar+", "+m.sizeVar+" = utf8.DecodeRuneInString("+m.jsonVar+"["+m.idxVar+":])" {
+		failAt(loop.Body, "expected `%s, %s = utf8.DecodeRuneInString(%s[%s:])` at the top of the loop",
+			m.charVar, m.sizeVar, m.jsonVar, m.idxVar)
+	}
+	dec, ok := lb[1].(*ast.IfStmt)
+	wantCond := m.sizeVar + " == 0 || (" + m.charVar + " == utf8.RuneError && " + m.sizeVar + " == 1)"
+	if !ok || dec.Init != nil || dec.Else != nil || src(dec.Cond) != wantCond || len(dec.Body.List) != 1 {
+		failAt(lb[1], "expected the decoding check `if %s { return … }`", wantCond)
+	}
+	dret, ok := dec.Body.List[0].(*ast.ReturnStmt)
+	if !ok || len(dret.Results) != 3 || src(dret.Results[0]) != "nil" || src(dret.Results[1]) != "0" {
+		failAt(dec, "expected `return nil, 0, fmt.Errorf(...)` in the decoding check")
+	}
+	m.utfErr = errorfToLean(dret.Results[2], "", "", "")
+	m.body = lb[2:]
+	// the stateStart case (found in the first switch over the state variable)
+	for _, st := range m.body {
+		if sw, ok := st.(*ast.SwitchStmt); ok && sw.Tag != nil && isIdent(sw.Tag, m.stateVar) {
+			for _, cc := range sw.Body.List {
+				c := cc.(*ast.CaseClause)
+				for _, x := range c.List {
+					if isIdent(x, "stateStart") {
+						if len(c.List) != 1 || m.startCase != nil {
+							failAt(c, "unrecognised stateStart case")
+						}
+						m.startCase = c
+					}
+				}
+			}
+		}
+	}
+	if m.startCase == nil {
+		failAt(fd, "%s: no `case stateStart`", fd.Name.Name)
+	}
+	m.goLines = fset.Position(fd.End()).Line - fset.Position(fd.Pos()).Line + 1
+	return m
+}
+
+func methodCallNode(n ast.Node) (x, m string, args []ast.Expr, ok bool) {
+	e, isExpr := n.(ast.Expr)
+	if !isExpr {
+		return "", "", nil, false
+	}
+	return methodCall(e)
+}
+
+// the arguments with which the loop is entered behind the opening bracket: the variable
+// declarations followed by the body of `case stateStart`
+func (m *machine) initArgs() string {
+	env := &penv{state: "", acc: "", key: builder{base: "[]"}, val: builder{base: "[]"}, inVal: "false",
+		line: "<line>", rest: "<rest>", locals: map[string]local{}}
+	var got []*penv
+	marker := lLeaf{"<start>"}
+	n := m.execList(m.startCase.Body, env, func(e *penv) lnode { got = append(got, e); return marker })
+	if n != marker || len(got) != 1 {
+		failAt(m.startCase, "`case stateStart` is not a straight-line sequence of assignments")
+	}
+	e := got[0]
+	if e.state == "" || e.state == "st" || e.acc == "" || e.line != "<line>" || e.rest != "<rest>" {
+		failAt(m.startCase, "`case stateStart` must create the container and set the state")
+	}
+	return m.args(e)
+}
+
+// state, container, builders, inVal — the middle arguments of the Lean function
+func (m *machine) args(e *penv) string {
+	parts := []string{e.state, paren(e.acc)}
+	if m.kind == "object" {
+		parts = append(parts, paren(e.key.lean()))
+	}
+	parts = append(parts, paren(e.val.lean()), paren(e.inVal))
+	return strings.Join(parts, " ")
+}
+
+func (m *machine) recurse(at ast.Node, e *penv) lnode {
+	if e.pendingPos != "" {
+		failAt(at, "the position returned by the nested call (%s) is not added to %s before the next iteration", e.pendingPos, m.idxVar)
+	}
+	if e.state == "" || e.acc == "" {
+		failAt(at, "iteration continues in stateStart")
+	}
+	return lLeaf{m.genName + " fuel " + e.rest + " " + m.args(e) + " " + paren(e.line)}
+}
+
+func (m *machine) execList(list []ast.Stmt, env *penv, k kont) lnode {
+	if len(list) == 0 {
+		return k(env)
+	}
+	return m.execStmt(list[0], env, func(e *penv) lnode { return m.execList(list[1:], e, k) })
+}
+
+type cval struct {
+	static bool
+	value  bool
+	lean   string
+	prec   int // 100 atom, 90 `!x`, 70 application, 50 comparison, 35 &&, 30 ||
+}
+
+func staticVal(v bool) cval { return cval{static: true, value: v} }
+
+func (m *machine) isChar(e ast.Expr) bool { return isIdent(unparen(e), m.charVar) }
+
+func (m *machine) builderOf(env *penv, name string) (*builder, bool) {
+	switch {
+	case name == m.valVar:
+		return &env.val, true
+	case name == m.keyVar && m.keyVar != "":
+		return &env.key, true
+	}
+	return nil, false
+}
+
+func (m *machine) cond(env *penv, e ast.Expr) cval {
+	e = unparen(e)
+	switch x := e.(type) {
+	case *ast.Ident:
+		if x.Name == m.inValVar {
+			switch env.inVal {
+			case "true":
+				return staticVal(true)
+			case "false":
+				return staticVal(false)
+			}
+			return cval{lean: env.inVal, prec: 100}
+		}
+	case *ast.UnaryExpr:
+		if x.Op == token.NOT {
+			c := m.cond(env, x.X)
+			if c.static {
+				return staticVal(!c.value)
+			}
+			if c.prec < 100 {
+				return cval{lean: "!(" + c.lean + ")", prec: 90}
+			}
+			return cval{lean: "!" + c.lean, prec: 90}
+		}
+	case *ast.CallExpr:
+		if px, sel, ok := selOf(x.Fun); ok && px == "unicode" && sel == "IsSpace" && len(x.Args) == 1 && m.isChar(x.Args[0]) {
+			return cval{lean: "isSpace c", prec: 70}
+		}
+	case *ast.BinaryExpr:
+		switch x.Op {
+		case token.LAND, token.LOR:
+			a, b := m.cond(env, x.X), m.cond(env, x.Y)
+			and := x.Op == token.LAND
+			// Go evaluates left to right and both operands are pure here
+			if a.static {
+				if a.value == and {
+					return b
+				}
+				return staticVal(!and)
+			}
+			if b.static {
+				if b.value == and {
+					return a
+				}
+				return staticVal(!and)
+			}
+			p, op := 30, " || "
+			if and {
+				p, op = 35, " && "
+			}
+			l, r := a.lean, b.lean
+			if a.prec < p {
+				l = "(" + l + ")"
+			}
+			if b.prec <= p {
+				r = "(" + r + ")"
+			}
+			return cval{lean: l + op + r, prec: p}
+		case token.EQL, token.NEQ:
+			op := " == "
+			if x.Op == token.NEQ {
+				op = " != "
+			}
+			if r, ok := charLit(x.Y); ok && m.isChar(x.X) {
+				return cval{lean: "c" + op + leanChar(r), prec: 50}
+			}
+			if r, ok := charLit(x.X); ok && m.isChar(x.Y) {
+				return cval{lean: "c" + op + leanChar(r), prec: 50}
+			}
+			if id, ok := unparen(x.X).(*ast.Ident); ok && src(x.Y) == "nil" {
+				switch env.locals[id.Name].typ {
+				case "err":
+					return staticVal(x.Op == token.NEQ)
+				case "nilerr":
+					return staticVal(x.Op == token.EQL)
+				}
+			}
+			if bx, bm, bargs, ok := methodCall(x.X); ok && bm == "Len" && len(bargs) == 0 && src(x.Y) == "0" {
+				if b, ok := m.builderOf(env, bx); ok {
+					if x.Op == token.EQL {
+						return cval{lean: paren(b.lean()) + ".isEmpty", prec: 70}
+					}
+					return cval{lean: "!" + paren(b.lean()) + ".isEmpty", prec: 90}
+				}
+			}
+		case token.GTR:
+			if bx, bm, bargs, ok := methodCall(x.X); ok && bm == "Len" && len(bargs) == 0 && src(x.Y) == "0" {
+				if b, ok := m.builderOf(env, bx); ok {
+					return cval{lean: "!" + paren(b.lean()) + ".isEmpty", prec: 90}
+				}
+			}
+		}
+	}
+	failAt(e, "unrecognised condition: %s", src(e))
+	return cval{}
+}
+
+// the character a true condition establishes (`char == 'x'` as a conjunct)
+func (m *machine) charFact(e ast.Expr) rune {
+	e = unparen(e)
+	if b, ok := e.(*ast.BinaryExpr); ok {
+		switch b.Op {
+		case token.LAND:
+			if r := m.charFact(b.X); r != 0 {
+				return r
+			}
+			return m.charFact(b.Y)
+		case token.EQL:
+			if r, ok := charLit(b.Y); ok && m.isChar(b.X) {
+				return r
+			}
+			if r, ok := charLit(b.X); ok && m.isChar(b.Y) {
+				return r
+			}
+		}
+	}
+	return 0
+}
+
+func (m *machine) isLineDeref(e ast.Expr) bool {
+	s, ok := unparen(e).(*ast.StarExpr)
+	return ok && isIdent(s.X, m.lineVar)
+}
+
+// a value stored into the container: a local of type jval / str
+func (m *machine) jvalOf(env *penv, e ast.Expr) string {
+	id, ok := unparen(e).(*ast.Ident)
+	if !ok {
+		failAt(e, "unrecognised element expression: %s", src(e))
+	}
+	l, ok := env.locals[id.Name]
+	switch {
+	case ok && l.typ == "jval":
+		return l.lean
+	case ok && l.typ == "str":
+		return ".str " + paren(l.lean)
+	}
+	failAt(e, "%s is not a value that can be stored here", id.Name)
+	return ""
+}
+
+func (m *machine) execStmt(st ast.Stmt, env *penv, k kont) lnode {
+	switch st := st.(type) {
+	case *ast.BlockStmt:
+		return m.execList(st.List, env, k)
+
+	case *ast.IfStmt:
+		if st.Init != nil {
+			failAt(st, "if with an init statement")
+		}
+		// `if cond { *line++ }`: a let-bound new line counter instead of a duplicated continuation
+		if st.Else == nil && len(st.Body.List) == 1 {
+			if inc, ok := st.Body.List[0].(*ast.IncDecStmt); ok && inc.Tok == token.INC && m.isLineDeref(inc.X) {
+				c := m.cond(env, st.Cond)
+				if c.static {
+					failAt(st, "constant condition")
+				}
+				e := env.clone()
+				e.lineLets++
+				name := "line"
+				if e.lineLets > 1 {
+					name = fmt.Sprintf("line_%d", e.lineLets)
+				}
+				val := "if " + c.lean + " then " + env.line + " + 1 else " + env.line
+				if c.lean == `c == '\n'` {
+					val = "bumpLine c " + paren(env.line)
+				}
+				e.line = name
+				return lLet{name: name, val: val, body: k(e)}
+			}
+		}
+		c := m.cond(env, st.Cond)
+		thenBranch := func() lnode {
+			e := env.clone()
+			if r := m.charFact(st.Cond); r != 0 {
+				e.knownChar = r
+			}
+			return m.execList(st.Body.List, e, k)
+		}
+		elseBranch := func() lnode {
+			if st.Else == nil {
+				return k(env.clone())
+			}
+			return m.execStmt(st.Else, env.clone(), k)
+		}
+		if c.static {
+			if c.value {
+				return thenBranch()
+			}
+			return elseBranch()
+		}
+		return lIf{cond: c.lean, a: thenBranch(), b: elseBranch()}
+
+	case *ast.BranchStmt:
+		if st.Tok == token.CONTINUE && st.Label == nil {
+			return m.recurse(st, env)
+		}
+		failAt(st, "unsupported branch statement: %s", src(st))
+
+	case *ast.ReturnStmt:
+		return m.execReturn(st, env)
+
+	case *ast.IncDecStmt:
+		if st.Tok == token.INC && m.isLineDeref(st.X) {
+			e := env.clone()
+			e.line = paren(env.line) + " + 1"
+			return k(e)
+		}
+		failAt(st, "unrecognised statement: %s", src(st))
+
+	case *ast.SwitchStmt:
+		return m.execSwitch(st, env, k)
+
+	case *ast.AssignStmt:
+		return m.execAssign(st, env, k)
+
+	case *ast.ExprStmt:
+		x, mm, args, ok := methodCall(st.X)
+		if !ok {
+			failAt(st, "unrecognised statement: %s", src(st))
+		}
+		e := env.clone()
+		if b, isB := m.builderOf(e, x); isB {
+			switch {
+			case mm == "Reset" && len(args) == 0:
+				*b = builder{base: "[]"}
+				return k(e)
+			case mm == "WriteRune" && len(args) == 1 && m.isChar(args[0]):
+				b.app = append(b.app, "c")
+				return k(e)
+			case mm == "WriteRune" && len(args) == 1:
+				if r, ok := charLit(args[0]); ok {
+					b.app = append(b.app, leanChar(r))
+					return k(e)
+				}
+			case mm == "WriteString" && len(args) == 1:
+				if id, ok := unparen(args[0]).(*ast.Ident); ok && e.locals[id.Name].typ == "str" {
+					s := e.locals[id.Name].lean
+					if b.base == "[]" && len(b.app) == 0 {
+						*b = builder{base: s}
+					} else {
+						*b = builder{base: paren(b.lean()) + " ++ " + paren(s)}
+					}
+					return k(e)
+				}
+			}
+			failAt(st, "unrecognised builder operation: %s", src(st))
+		}
+		if x == m.accVar {
+			if e.acc == "" {
+				failAt(st, "the container is used before it is created")
+			}
+			switch {
+			case m.kind == "list" && mm == "Add" && len(args) == 1:
+				e.acc = paren(e.acc) + " ++ [" + m.jvalOf(e, args[0]) + "]"
+				return k(e)
+			case m.kind == "object" && mm == "Set" && len(args) == 2:
+				if bx, bm, bargs, ok := methodCall(args[0]); ok && bm == "String" && len(bargs) == 0 && bx == m.keyVar {
+					e.acc = "setField " + paren(e.acc) + " " + paren(e.key.lean()) + " " + paren(m.jvalOf(e, args[1]))
+					return k(e)
+				}
+			}
+		}
+		failAt(st, "unrecognised statement: %s", src(st))
+	}
+	failAt(st, "unrecognised statement: %s", src(st))
+	return nil
+}
+
+func (m *machine) execReturn(st *ast.ReturnStmt, env *penv) lnode {
+	if len(st.Results) != 3 {
+		failAt(st, "unrecognised return: %s", src(st))
+	}
+	r := st.Results
+	if isIdent(r[0], m.accVar) && isIdent(r[1], m.idxVar) && src(r[2]) == "nil" {
+		if env.pendingPos != "" || env.acc == "" {
+			failAt(st, "return in an unexpected position")
+		}
+		ctor := map[string]string{"list": ".list", "object": ".obj"}[m.kind]
+		return lLeaf{".ok (" + ctor + " " + paren(env.acc) + ") " + env.rest + " " + paren(env.line)}
+	}
+	if src(r[0]) == "nil" && src(r[1]) == "0" {
+		if id, ok := unparen(r[2]).(*ast.Ident); ok {
+			if l := env.locals[id.Name]; l.typ == "err" {
+				return lLeaf{".err " + l.lean}
+			}
+			failAt(st, "%s is not known to be a non-nil error here", id.Name)
+		}
+		return lLeaf{".err " + errorfToLean(r[2], "string("+m.charVar+")", "*"+m.lineVar, env.line)}
+	}
+	failAt(st, "unrecognised return: %s", src(st))
+	return nil
+}
+
+func (m *machine) execSwitch(st *ast.SwitchStmt, env *penv, k kont) lnode {
+	if st.Init != nil || st.Tag == nil || !isIdent(st.Tag, m.stateVar) {
+		failAt(st, "only `switch %s` is supported", m.stateVar)
+	}
+	type arm struct {
+		ctor string
+		body []ast.Stmt
+	}
+	var arms []arm
+	var deflt *ast.CaseClause
+	seen := map[string]bool{}
+	for _, cc := range st.Body.List {
+		c := cc.(*ast.CaseClause)
+		if c.List == nil {
+			deflt = c
+			continue
+		}
+		for _, x := range c.List {
+			id, ok := x.(*ast.Ident)
+			if !ok {
+				failAt(x, "unrecognised case: %s", src(x))
+			}
+			if id.Name == "stateStart" {
+				continue // executed by initArgs
+			}
+			ctor, ok := stateCtor[id.Name]
+			if !ok {
+				failAt(x, "unknown state %s", id.Name)
+			}
+			if seen[ctor] {
+				failAt(x, "duplicate case %s", id.Name)
+			}
+			seen[ctor] = true
+			arms = append(arms, arm{ctor, c.Body})
+		}
+	}
+	for _, ctor := range stateTypes[m.kind] {
+		if !seen[ctor] {
+			if deflt != nil {
+				arms = append(arms, arm{ctor, deflt.Body})
+			} else {
+				arms = append(arms, arm{ctor, nil})
+			}
+		}
+	}
+	run := func(a arm) lnode {
+		for _, s := range a.body {
+			ast.Inspect(s, func(n ast.Node) bool {
+				if b, ok := n.(*ast.BranchStmt); ok && (b.Tok == token.BREAK || b.Tok == token.FALLTHROUGH || b.Tok == token.GOTO) {
+					failAt(b, "unsupported branch statement: %s", src(b))
+				}
+				return true
+			})
+		}
+		e := env.clone()
+		e.state = "." + a.ctor
+		return m.execList(a.body, e, k)
+	}
+	if env.state != "st" {
+		// the state is known: only one case applies
+		for _, a := range arms {
+			if "."+a.ctor == env.state {
+				return run(a)
+			}
+		}
+		failAt(st, "switch in state %q", env.state)
+	}
+	out := lMatch{scrut: "st"}
+	for _, a := range arms {
+		out.arms = append(out.arms, lArm{pat: "." + a.ctor, body: run(a)})
+	}
+	return out
+}
+
+func (m *machine) execAssign(st *ast.AssignStmt, env *penv, k kont) lnode {
+	e := env.clone()
+	if st.Tok == token.ASSIGN && len(st.Lhs) == 1 && len(st.Rhs) == 1 {
+		lhs, rhs := st.Lhs[0], unparen(st.Rhs[0])
+		switch {
+		case isIdent(lhs, m.stateVar):
+			if id, ok := rhs.(*ast.Ident); ok {
+				if ctor, ok := stateCtor[id.Name]; ok {
+					e.state = "." + ctor
+					return k(e)
+				}
+			}
+		case isIdent(lhs, m.inValVar):
+			if s := src(rhs); s == "true" || s == "false" {
+				e.inVal = s
+				return k(e)
+			}
+		case isIdent(lhs, m.accVar):
+			want := map[string]string{"list": "NewList()", "object": "NewObject()"}[m.kind]
+			if src(rhs) == want {
+				e.acc = "[]"
+				return k(e)
+			}
+		}
+		failAt(st, "unrecognised assignment: %s", src(st))
+	}
+	if st.Tok == token.ADD_ASSIGN && len(st.Lhs) == 1 && isIdent(st.Lhs[0], m.idxVar) {
+		if id, ok := unparen(st.Rhs[0]).(*ast.Ident); ok && e.pendingPos != "" && id.Name == e.pendingPos {
+			e.rest = e.pendingRest
+			e.pendingPos, e.pendingRest = "", ""
+			return k(e)
+		}
+		failAt(st, "unrecognised index update: %s", src(st))
+	}
+	if st.Tok != token.DEFINE || len(st.Rhs) != 1 {
+		failAt(st, "unrecognised assignment: %s", src(st))
+	}
+	names := make([]string, len(st.Lhs))
+	for i, l := range st.Lhs {
+		id, ok := l.(*ast.Ident)
+		if !ok {
+			failAt(st, "unrecognised assignment: %s", src(st))
+		}
+		names[i] = id.Name
+		for _, v := range []string{m.stateVar, m.accVar, m.valVar, m.keyVar, m.inValVar, m.charVar, m.sizeVar, m.idxVar, m.jsonVar, m.lineVar} {
+			if id.Name == v {
+				failAt(st, "%s shadows a variable of the machine", id.Name)
+			}
+		}
+	}
+	call, ok := unparen(st.Rhs[0]).(*ast.CallExpr)
+	if !ok {
+		failAt(st, "unrecognised assignment: %s", src(st))
+	}
+	fn, _ := call.Fun.(*ast.Ident)
+	switch {
+	// v, pos, err := parseX(json[i:], line)
+	case fn != nil && m.all[fn.Name] != nil && len(names) == 3:
+		callee := m.all[fn.Name]
+		if len(call.Args) != 2 || src(call.Args[0]) != m.jsonVar+"["+m.idxVar+":]" || !isIdent(call.Args[1], m.lineVar) {
+			failAt(st, "expected %s(%s[%s:], %s)", fn.Name, m.jsonVar, m.idxVar, m.lineVar)
+		}
+		if env.pendingPos != "" {
+			failAt(st, "nested call before the previous result position was consumed")
+		}
+		// the callee's stateStart consumes the current character without looking at it; the model
+		// relies on its being a bracket (in particular not a newline)
+		if env.knownChar == 0 || env.knownChar == '\n' || env.knownChar >= 0x80 {
+			failAt(st, "nested call not guarded by a comparison of %s with a bracket", m.charVar)
+		}
+		if names[0] == "_" || names[1] == "_" || names[2] == "_" {
+			failAt(st, "blank result of the nested call")
+		}
+		primes := strings.Repeat("'", env.nestDepth+1)
+		restN, lineN, vN := "rest"+primes, "line"+primes, leanName(names[0])
+		errEnv := env.clone()
+		errEnv.locals[names[0]] = local{typ: "undef"}
+		errEnv.locals[names[1]] = local{typ: "undef"}
+		errEnv.locals[names[2]] = local{typ: "err", lean: "e"}
+		okEnv := env.clone()
+		okEnv.nestDepth++
+		okEnv.locals[names[0]] = local{typ: "jval", lean: vN}
+		okEnv.locals[names[1]] = local{typ: "undef"}
+		okEnv.locals[names[2]] = local{typ: "nilerr"}
+		okEnv.pendingPos, okEnv.pendingRest = names[1], restN
+		okEnv.line = lineN // the callee advanced *line
+		return lMatch{
+			scrut: callee.genName + " fuel " + env.rest + " " + callee.initArgs() + " " + paren(env.line),
+			arms: []lArm{
+				{pat: ".err e", body: k(errEnv)},
+				{pat: ".ok " + vN + " " + restN + " " + lineN, body: k(okEnv)},
+			},
+		}
+
+	// field, err := parseField(val.String(), *line)
+	case fn != nil && fn.Name == "parseField" && len(names) == 2:
+		if len(call.Args) != 2 || !m.isLineDeref(call.Args[1]) {
+			failAt(st, "expected parseField(<builder>.String(), *%s)", m.lineVar)
+		}
+		bx, bm, bargs, ok := methodCall(call.Args[0])
+		b, isB := m.builderOf(e, bx)
+		if !ok || bm != "String" || len(bargs) != 0 || !isB {
+			failAt(st, "expected parseField(<builder>.String(), *%s)", m.lineVar)
+		}
+		vN := leanName(names[0])
+		errEnv := env.clone()
+		errEnv.locals[names[0]] = local{typ: "undef"}
+		errEnv.locals[names[1]] = local{typ: "err", lean: "e"}
+		okEnv := env.clone()
+		okEnv.locals[names[0]] = local{typ: "jval", lean: vN}
+		okEnv.locals[names[1]] = local{typ: "nilerr"}
+		return lMatch{
+			scrut: "parseField " + paren(b.lean()) + " " + paren(env.line),
+			arms: []lArm{
+				{pat: ".error e", body: k(errEnv)},
+				{pat: ".ok " + vN, body: k(okEnv)},
+			},
+		}
+
+	// str := unquoteJSON(val.String())
+	case fn != nil && fn.Name == "unquoteJSON" && len(names) == 1 && len(call.Args) == 1:
+		bx, bm, bargs, ok := methodCall(call.Args[0])
+		b, isB := m.builderOf(e, bx)
+		if !ok || bm != "String" || len(bargs) != 0 || !isB {
+			failAt(st, "expected unquoteJSON(<builder>.String())")
+		}
+		e.locals[names[0]] = local{typ: "str", lean: "unquoteJSON " + paren(b.lean())}
+		return k(e)
+	}
+	failAt(st, "unrecognised assignment: %s", src(st))
+	return nil
+}
+
+// the Lean definition of one machine (inside the mutual block)
+func (m *machine) lean() string {
+	var b strings.Builder
+	sig := map[string]string{
+		"list":   "Nat → List Item → LSt → List JVal → Str → Bool → Nat → PRes",
+		"object": "Nat → List Item → OSt → List (Str × JVal) → Str → Str → Bool → Nat → PRes",
+	}[m.kind]
+	wild, vars := "_, _, _, _, _", "st, acc, val, inVal, line0"
+	if m.kind == "object" {
+		wild, vars = "_, _, _, _, _, _", "st, acc, key, val, inVal, line0"
+	}
+	fmt.Fprintf(&b, "/-- the loop of `%s` behind the opening bracket (%s, %d lines of Go) -/\n", m.decl.Name.Name, where(m.decl), m.goLines)
+	fmt.Fprintf(&b, "def %s : %s\n", m.genName, sig)
+	fmt.Fprintf(&b, "  | 0, _, %s => .err ⟨.fuel, none⟩\n", wild)
+	fmt.Fprintf(&b, "  | _ + 1, [], %s => .err %s\n", wild, m.endErr)
+	fmt.Fprintf(&b, "  | _ + 1, none :: _, %s => .err %s\n", wild, m.utfErr)
+	fmt.Fprintf(&b, "  | fuel + 1, some c :: rest, %s =>\n    ", vars)
+	env := &penv{state: "st", acc: "acc", key: builder{base: "key"}, val: builder{base: "val"}, inVal: "inVal",
+		line: "line0", rest: "rest", locals: map[string]local{}}
+	last := ast.Node(m.decl)
+	if len(m.body) > 0 {
+		last = m.body[len(m.body)-1]
+	}
+	tree := m.execList(m.body, env, func(e *penv) lnode { return m.recurse(last, e) })
+	emit(&b, tree, "    ")
+	b.WriteString("\n")
+	return b.String()
+}
+
+// --- parseField: the cascade null → ParseInt → ParseFloat → ParseBool → error
+
+type fieldEnv struct {
+	fieldVar, lineVar string
+	locals            map[string]local
+}
+
+func (e *fieldEnv) clone() *fieldEnv {
+	c := &fieldEnv{fieldVar: e.fieldVar, lineVar: e.lineVar, locals: map[string]local{}}
+	for k, v := range e.locals {
+		c.locals[k] = v
+	}
+	return c
+}
+
+func fieldExec(list []ast.Stmt, env *fieldEnv, end ast.Node) lnode {
+	if len(list) == 0 {
+		failAt(end, "parseField: control reaches the end of the function")
+	}
+	rest := list[1:]
+	switch st := list[0].(type) {
+	case *ast.IfStmt:
+		if st.Init != nil || st.Else != nil {
+			failAt(st, "parseField: unsupported if statement")
+		}
+		c, ok := unparen(st.Cond).(*ast.BinaryExpr)
+		if !ok || (c.Op != token.EQL && c.Op != token.NEQ) {
+			failAt(st, "parseField: unrecognised condition %s", src(st.Cond))
+		}
+		if isIdent(c.X, env.fieldVar) && c.Op == token.EQL {
+			if s, ok := stringLit(c.Y); ok {
+				return lIf{cond: "field == " + leanCharList(s), a: fieldExec(st.Body.List, env.clone(), st), b: fieldExec(rest, env.clone(), end)}
+			}
+		}
+		if id, ok := unparen(c.X).(*ast.Ident); ok && src(c.Y) == "nil" {
+			var isNil bool
+			switch env.locals[id.Name].typ {
+			case "err":
+				isNil = false
+			case "nilerr":
+				isNil = true
+			default:
+				failAt(st, "parseField: %s is not an error variable", id.Name)
+			}
+			if isNil == (c.Op == token.EQL) {
+				// the body must end in a return
+				return fieldExec(st.Body.List, env.clone(), st)
+			}
+			return fieldExec(rest, env, end)
+		}
+		failAt(st, "parseField: unrecognised condition %s", src(st.Cond))
+	case *ast.AssignStmt:
+		if st.Tok != token.DEFINE || len(st.Lhs) != 2 || len(st.Rhs) != 1 {
+			failAt(st, "parseField: unrecognised assignment %s", src(st))
+		}
+		v, ok1 := st.Lhs[0].(*ast.Ident)
+		er, ok2 := st.Lhs[1].(*ast.Ident)
+		call, ok3 := unparen(st.Rhs[0]).(*ast.CallExpr)
+		if !ok1 || !ok2 || !ok3 || v.Name == "_" || er.Name == "_" || v.Name == env.fieldVar || v.Name == env.lineVar {
+			failAt(st, "parseField: unrecognised assignment %s", src(st))
+		}
+		x, sel, _ := selOf(call.Fun)
+		argSrc := make([]string, len(call.Args))
+		for i, a := range call.Args {
+			argSrc[i] = src(a)
+		}
+		args := strings.Join(argSrc, ", ")
+		f := env.fieldVar
+		var fn, typ string
+		switch {
+		// the model is that of a 64-bit platform: bits.UintSize = 64
+		case x == "strconv" && sel == "ParseInt" && (args == f+", 0, bits.UintSize" || args == f+", 0, 64"):
+			fn, typ = "parseIntBase0", "int"
+		case x == "strconv" && sel == "ParseFloat" && (args == f+", bits.UintSize" || args == f+", 64"):
+			fn, typ = "F64.parseFloat", "float"
+		case x == "strconv" && sel == "ParseBool" && args == f:
+			fn, typ = "parseBool", "bool"
+		default:
+			failAt(st, "parseField: unrecognised call %s", src(call))
+		}
+		vN := leanName(v.Name)
+		if vN == "field" {
+			vN = "field_"
+		}
+		okEnv, errEnv := env.clone(), env.clone()
+		okEnv.locals[v.Name] = local{typ: typ, lean: vN}
+		okEnv.locals[er.Name] = local{typ: "nilerr"}
+		errEnv.locals[v.Name] = local{typ: "undef"}
+		errEnv.locals[er.Name] = local{typ: "err"}
+		return lMatch{scrut: fn + " field", arms: []lArm{
+			{pat: "some " + vN, body: fieldExec(rest, okEnv, end)},
+			{pat: "none", body: fieldExec(rest, errEnv, end)},
+		}}
+	case *ast.ReturnStmt:
+		if len(st.Results) != 2 {
+			failAt(st, "parseField: unrecognised return")
+		}
+		r0, r1 := unparen(st.Results[0]), st.Results[1]
+		if src(r1) != "nil" {
+			if src(r0) != "nil" {
+				failAt(st, "parseField: unrecognised return %s", src(st))
+			}
+			return lLeaf{".error " + errorfToLean(r1, env.fieldVar, env.lineVar, "line")}
+		}
+		if src(r0) == "nil" {
+			return lLeaf{".ok .null"}
+		}
+		// int(integer): the identity on a 64-bit platform
+		if c, ok := r0.(*ast.CallExpr); ok && isIdent(c.Fun, "int") && len(c.Args) == 1 {
+			if id, ok := unparen(c.Args[0]).(*ast.Ident); ok && env.locals[id.Name].typ == "int" {
+				return lLeaf{".ok (.int " + env.locals[id.Name].lean + ")"}
+			}
+		}
+		if id, ok := r0.(*ast.Ident); ok {
+			switch l := env.locals[id.Name]; l.typ {
+			case "float":
+				return lLeaf{".ok (.float " + l.lean + ")"}
+			case "bool":
+				return lLeaf{".ok (.bool " + l.lean + ")"}
+			}
+		}
+		failAt(st, "parseField: unrecognised return %s", src(st))
+	}
+	failAt(list[0], "parseField: unrecognised statement %s", src(list[0]))
+	return nil
+}
+
+func genParseField(fd *ast.FuncDecl) string {
+	ps := fd.Type.Params.List
+	if len(ps) != 2 || len(ps[0].Names) != 1 || len(ps[1].Names) != 1 || src(ps[0].Type) != "string" || src(ps[1].Type) != "int" {
+		failAt(fd, "parseField: expected the parameters (field string, line int)")
+	}
+	env := &fieldEnv{fieldVar: ps[0].Names[0].Name, lineVar: ps[1].Names[0].Name, locals: map[string]local{}}
+	tree := fieldExec(fd.Body.List, env, fd)
+	var b strings.Builder
+	fmt.Fprintf(&b, "/-- `parseField` (%s) -/\ndef parseFieldGen (field : Str) (line : Nat) : Except PErr JVal :=\n  ", where(fd))
+	emit(&b, tree, "  ")
+	b.WriteString("\n")
+	return b.String()
+}
+
+// --- the entry points ParseList / ParseObject (recognised statement by statement)
+
+func genEntry(fd *ast.FuncDecl, m *machine, leanName, runName string) string {
+	ps := fd.Type.Params.List
+	if len(ps) != 1 || len(ps[0].Names) != 1 || src(ps[0].Type) != "string" {
+		failAt(fd, "%s: expected one string parameter", fd.Name.Name)
+	}
+	json := ps[0].Names[0].Name
+	st := fd.Body.List
+	if len(st) != 5 {
+		failAt(fd, "%s: expected five statements", fd.Name.Name)
+	}
+	// start := strings.Index(json, "[")
+	as, ok := st[0].(*ast.AssignStmt)
+	if !ok || as.Tok != token.DEFINE || len(as.Lhs) != 1 || len(as.Rhs) != 1 {
+		failAt(st[0], "expected `start := strings.Index(%s, \"…\")`", json)
+	}
+	start := src(as.Lhs[0])
+	call, ok := as.Rhs[0].(*ast.CallExpr)
+	if !ok || src(call.Fun) != "strings.Index" || len(call.Args) != 2 || !isIdent(call.Args[0], json) {
+		failAt(st[0], "expected `start := strings.Index(%s, \"…\")`", json)
+	}
+	bracket, ok := stringLit(call.Args[1])
+	if !ok || len(bracket) != 1 || bracket[0] >= 0x80 || bracket[0] == '\n' {
+		failAt(st[0], "the searched string must be one ASCII character other than a newline")
+	}
+	// if start < 0 { return nil, fmt.Errorf(...) }
+	ifs, ok := st[1].(*ast.IfStmt)
+	if !ok || ifs.Init != nil || ifs.Else != nil || src(ifs.Cond) != start+" < 0" || len(ifs.Body.List) != 1 {
+		failAt(st[1], "expected `if %s < 0 { return nil, fmt.Errorf(…) }`", start)
+	}
+	ret, ok := ifs.Body.List[0].(*ast.ReturnStmt)
+	if !ok || len(ret.Results) != 2 || src(ret.Results[0]) != "nil" {
+		failAt(st[1], "expected `if %s < 0 { return nil, fmt.Errorf(…) }`", start)
+	}
+	missing := errorfToLean(ret.Results[1], "", "", "")
+	// startLine := strings.Count(json[:start], "\n") + 1
+	as2, ok := st[2].(*ast.AssignStmt)
+	if !ok || as2.Tok != token.DEFINE || len(as2.Lhs) != 1 || len(as2.Rhs) != 1 ||
+		src(as2.Rhs[0]) != "strings.Count("+json+"[:"+start+`], "\n") + 1` {
+		failAt(st[2], "expected `startLine := strings.Count(%s[:%s], \"\\n\") + 1`", json, start)
+	}
+	startLine := src(as2.Lhs[0])
+	// root, _, err := parseX(json[start:], &startLine)
+	as3, ok := st[3].(*ast.AssignStmt)
+	if !ok || as3.Tok != token.DEFINE || len(as3.Lhs) != 3 || len(as3.Rhs) != 1 || src(as3.Lhs[1]) != "_" ||
+		src(as3.Rhs[0]) != m.decl.Name.Name+"("+json+"["+start+":], &"+startLine+")" {
+		failAt(st[3], "expected `root, _, err := %s(%s[%s:], &%s)`", m.decl.Name.Name, json, start, startLine)
+	}
+	// return root, err
+	ret2, ok := st[4].(*ast.ReturnStmt)
+	if !ok || len(ret2.Results) != 2 || src(ret2.Results[0]) != src(as3.Lhs[0]) || src(ret2.Results[1]) != src(as3.Lhs[2]) {
+		failAt(st[4], "expected `return %s, %s`", src(as3.Lhs[0]), src(as3.Lhs[2]))
+	}
+	var b strings.Builder
+	fmt.Fprintf(&b, "/-- `%s(json[start:], &startLine)`: the machine run on the bytes behind the root bracket -/\n", m.decl.Name.Name)
+	fmt.Fprintf(&b, "def %s (post : List UInt8) (startLine : Nat) : PRes :=\n  let items := decodeAll post\n  %s (items.length + 1) items %s startLine\n\n",
+		runName, m.genName, m.initArgs())
+	fmt.Fprintf(&b, "/-- `%s` (%s) -/\n", fd.Name.Name, where(fd))
+	fmt.Fprintf(&b, "def %s (bs : List UInt8) : Except PErr JVal :=\n  match splitAtByte 0x%02X bs with\n  | none => .error %s\n  | some (pre, post) =>\n    match %s post (countNL pre + 1) with\n    | .ok v _ _ => .ok v\n    | .err e => .error e\n",
+		leanName, bracket[0], missing, runName)
+	return b.String()
+}
+
+func genParser(p *pkgInfo) (text string, err error) {
+	defer func() {
+		if r := recover(); r != nil {
+			te, ok := r.(*transErr)
+			if !ok {
+				panic(r)
+			}
+			text, err = "", te
+		}
+	}()
+	need := func(name string) *ast.FuncDecl {
+		fd := p.funcs[name]
+		if fd == nil {
+			failAt(nil, "function %s not found", name)
+		}
+		return fd
+	}
+	all := map[string]*machine{}
+	all["parseList"] = newMachine(need("parseList"), "list", "pListGen", all)
+	all["parseObject"] = newMachine(need("parseObject"), "object", "pObjectGen", all)
+	var b strings.Builder
+	b.WriteString("/-\nGENERATED by vextract from the Go source (parser.go, anytype.go) — do not edit.\n\n")
+	b.WriteString("A translation of the parser core into Lean: the loops of `parseList` / `parseObject` (symbolic\nexecution of the loop body; conventions of Model/Parser.lean: decoded items as input, a nested\ncall returns the remaining items, `case stateStart` is executed once to obtain the initial\narguments, recursion on fuel), `parseField`, the entry points `ParseList` / `ParseObject` and the\nescape table of `quoteJSON`.  Lemmas/ParserGenEq.lean proves these definitions equal to the\nhand-written model, so a change of the Go source that alters the behaviour breaks the build.\n-/\n")
+	b.WriteString("import Anytype.Model.Parser\nnamespace Anytype.Generated\nopen Anytype\n\n")
+	b.WriteString(genParseField(need("parseField")))
+	b.WriteString("\nmutual\n")
+	b.WriteString(all["parseList"].lean())
+	b.WriteString("\n")
+	b.WriteString(all["parseObject"].lean())
+	b.WriteString("end\n\n")
+	b.WriteString(genEntry(need("ParseList"), all["parseList"], "parseListBytesGen", "runListGen"))
+	b.WriteString("\n")
+	b.WriteString(genEntry(need("ParseObject"), all["parseObject"], "parseObjectBytesGen", "runObjectGen"))
+	b.WriteString("\n")
+	b.WriteString(genQuoteJSON(need("quoteJSON")))
+	b.WriteString("\nend Anytype.Generated\n")
+	return b.String(), nil
+}
+
+// --- quoteJSON: the escape table of its byte loop
+
+// a byte-valued expression over the loop byte, as a Lean `Nat` expression over `c.toNat`
+// (meaningful for bytes < 0x80, where the byte is the character)
+func byteExpr(e ast.Expr, char string) string {
+	e = unparen(e)
+	switch x := e.(type) {
+	case *ast.Ident:
+		if x.Name == char {
+			return "c.toNat"
+		}
+	case *ast.BasicLit:
+		if x.Kind == token.INT {
+			if v, err := strconv.ParseUint(x.Value, 0, 8); err == nil {
+				return fmt.Sprintf("0x%x", v)
+			}
+		}
+	case *ast.BinaryExpr:
+		a := byteExpr(x.X, char)
+		if lit, ok := unparen(x.Y).(*ast.BasicLit); ok && lit.Kind == token.INT {
+			if v, err := strconv.ParseUint(lit.Value, 0, 8); err == nil {
+				switch x.Op {
+				case token.SHR:
+					return fmt.Sprintf("%s >>> %d", a, v)
+				case token.AND:
+					return fmt.Sprintf("%s &&& 0x%x", a, v)
+				}
+			}
+		}
+	}
+	failAt(e, "quoteJSON: unrecognised byte expression %s", src(e))
+	return ""
+}
+
+func genQuoteJSON(fd *ast.FuncDecl) string {
+	ps := fd.Type.Params.List
+	if len(ps) != 1 || len(ps[0].Names) != 1 || src(ps[0].Type) != "string" {
+		failAt(fd, "quoteJSON: expected one string parameter")
+	}
+	str := ps[0].Names[0].Name
+	tables := map[string]string{} // constant strings indexed by a byte expression
+	result := ""
+	var pre, post []string // characters written before / behind the loop
+	var loop *ast.ForStmt
+	returned := false
+	for _, st := range fd.Body.List {
+		if returned {
+			failAt(st, "quoteJSON: statement behind the return")
+		}
+		switch st := st.(type) {
+		case *ast.DeclStmt:
+			gd := st.Decl.(*ast.GenDecl)
+			if len(gd.Specs) != 1 {
+				failAt(st, "quoteJSON: unrecognised declaration")
+			}
+			vs, ok := gd.Specs[0].(*ast.ValueSpec)
+			if !ok || len(vs.Names) != 1 {
+				failAt(st, "quoteJSON: unrecognised declaration")
+			}
+			switch {
+			case gd.Tok == token.CONST && len(vs.Values) == 1:
+				s, ok := stringLit(vs.Values[0])
+				if !ok {
+					failAt(st, "quoteJSON: unrecognised constant")
+				}
+				tables[vs.Names[0].Name] = s
+			case gd.Tok == token.VAR && len(vs.Values) == 0 && vs.Type != nil && src(vs.Type) == "strings.Builder" && result == "":
+				result = vs.Names[0].Name
+			default:
+				failAt(st, "quoteJSON: unrecognised declaration")
+			}
+		case *ast.ExprStmt:
+			x, mm, args, ok := methodCall(st.X)
+			r, isChar := rune(0), false
+			if ok && len(args) == 1 {
+				r, isChar = charLit(args[0])
+			}
+			if !ok || x != result || result == "" || mm != "WriteByte" || !isChar {
+				failAt(st, "quoteJSON: unrecognised statement %s", src(st))
+			}
+			if loop == nil {
+				pre = append(pre, leanChar(r))
+			} else {
+				post = append(post, leanChar(r))
+			}
+		case *ast.ForStmt:
+			if loop != nil {
+				failAt(st, "quoteJSON: second loop")
+			}
+			loop = st
+		case *ast.ReturnStmt:
+			if len(st.Results) != 1 || src(st.Results[0]) != result+".String()" || loop == nil {
+				failAt(st, "quoteJSON: unrecognised return")
+			}
+			returned = true
+		default:
+			failAt(st, "quoteJSON: unrecognised statement %s", src(st))
+		}
+	}
+	if loop == nil || !returned {
+		failAt(fd, "quoteJSON: missing loop or return")
+	}
+	// for i := 0; i < len(str); i++ { char := str[i]; switch { … } }
+	idx := ""
+	if as, ok := loop.Init.(*ast.AssignStmt); ok && as.Tok == token.DEFINE && len(as.Lhs) == 1 && src(as.Rhs[0]) == "0" {
+		idx = src(as.Lhs[0])
+	}
+	if idx == "" || loop.Cond == nil || loop.Post == nil || src(loop.Cond) != idx+" < len("+str+")" || src(loop.Post) != idx+"++" || len(loop.Body.List) != 2 {
+		failAt(loop, "quoteJSON: unrecognised loop")
+	}
+	as, ok := loop.Body.List[0].(*ast.AssignStmt)
+	if !ok || as.Tok != token.DEFINE || len(as.Lhs) != 1 || src(as.Rhs[0]) != str+"["+idx+"]" {
+		failAt(loop.Body.List[0], "quoteJSON: expected `char := %s[%s]`", str, idx)
+	}
+	char := src(as.Lhs[0])
+	sw, ok := loop.Body.List[1].(*ast.SwitchStmt)
+	if !ok || sw.Tag != nil || sw.Init != nil {
+		failAt(loop.Body.List[1], "quoteJSON: expected a tagless switch")
+	}
+	// the output of one case: a list of character expressions
+	output := func(body []ast.Stmt) string {
+		var elems []string
+		for _, st := range body {
+			es, ok := st.(*ast.ExprStmt)
+			if !ok {
+				failAt(st, "quoteJSON: unrecognised statement %s", src(st))
+			}
+			x, mm, args, ok := methodCall(es.X)
+			if !ok || x != result || len(args) != 1 {
+				failAt(st, "quoteJSON: unrecognised statement %s", src(st))
+			}
+			arg := unparen(args[0])
+			switch mm {
+			case "WriteString":
+				s, ok := stringLit(arg)
+				if !ok {
+					failAt(st, "quoteJSON: unrecognised statement %s", src(st))
+				}
+				for _, r := range s {
+					elems = append(elems, leanChar(r))
+				}
+			case "WriteByte":
+				if isIdent(arg, char) {
+					elems = append(elems, "c")
+				} else if r, ok := charLit(arg); ok {
+					elems = append(elems, leanChar(r))
+				} else if ix, ok := arg.(*ast.IndexExpr); ok {
+					t, isT := ix.X.(*ast.Ident)
+					if !isT || tables[t.Name] == "" {
+						failAt(st, "quoteJSON: unrecognised statement %s", src(st))
+					}
+					elems = append(elems, fmt.Sprintf("%s.getD (%s) '\\x00'", leanCharList(tables[t.Name]), byteExpr(ix.Index, char)))
+				} else {
+					failAt(st, "quoteJSON: unrecognised statement %s", src(st))
+				}
+			default:
+				failAt(st, "quoteJSON: unrecognised statement %s", src(st))
+			}
+		}
+		return "[" + strings.Join(elems, ", ") + "]"
+	}
+	var tree lnode
+	var cases []*ast.CaseClause
+	var deflt *ast.CaseClause
+	for _, cc := range sw.Body.List {
+		c := cc.(*ast.CaseClause)
+		if c.List == nil {
+			deflt = c
+		} else {
+			cases = append(cases, c)
+		}
+	}
+	// the default branch must copy the byte: that (and the fact that every test below is false for
+	// a byte ≥ 0x80) is what makes the per-byte table a per-character table
+	if deflt == nil || len(deflt.Body) != 1 || src(deflt.Body[0]) != result+".WriteByte("+char+")" {
+		failAt(sw, "quoteJSON: the default case must be `%s.WriteByte(%s)`", result, char)
+	}
+	tree = lLeaf{"[c]"}
+	for i := len(cases) - 1; i >= 0; i-- {
+		c := cases[i]
+		if len(c.List) != 1 {
+			failAt(c, "quoteJSON: unrecognised case")
+		}
+		be, ok := unparen(c.List[0]).(*ast.BinaryExpr)
+		if !ok || !isIdent(be.X, char) {
+			failAt(c, "quoteJSON: unrecognised case %s", src(c.List[0]))
+		}
+		cond := ""
+		switch be.Op {
+		case token.EQL:
+			r, ok := charLit(be.Y)
+			if !ok || r >= 0x80 {
+				failAt(c, "quoteJSON: unrecognised case %s", src(c.List[0]))
+			}
+			cond = "c == " + leanChar(r)
+		case token.LSS:
+			lit, ok := unparen(be.Y).(*ast.BasicLit)
+			if !ok || lit.Kind != token.INT {
+				failAt(c, "quoteJSON: unrecognised case %s", src(c.List[0]))
+			}
+			v, err := strconv.ParseUint(lit.Value, 0, 8)
+			if err != nil || v > 0x80 {
+				failAt(c, "quoteJSON: unrecognised case %s", src(c.List[0]))
+			}
+			cond = fmt.Sprintf("c.toNat < 0x%x", v)
+		default:
+			failAt(c, "quoteJSON: unrecognised case %s", src(c.List[0]))
+		}
+		tree = lIf{cond: cond, a: lLeaf{output(c.Body)}, b: tree}
+	}
+	var b strings.Builder
+	fmt.Fprintf(&b, "/-- the escape table of `quoteJSON` (%s): the tagless switch of its byte loop, for a byte\n< 0x80 read as a character; every test is false for a byte ≥ 0x80 and the default case copies\nthe byte, so a multi-byte character is copied unchanged -/\n", where(fd))
+	b.WriteString("def escCharGen (c : Char) : Str :=\n  ")
+	emit(&b, tree, "  ")
+	b.WriteString("\n\n/-- `quoteJSON`: what is written before the loop, the table applied to every character, what is\nwritten behind the loop -/\n")
+	fmt.Fprintf(&b, "def quoteJSONGen (s : Str) : Str :=\n  [%s] ++ s.flatMap escCharGen ++ [%s]\n", strings.Join(pre, ", "), strings.Join(post, ", "))
 	return b.String()
 }
